@@ -179,13 +179,10 @@ def kernel_replaces(tier, seed, params):
                 if str(r) != "sat":
                     sol.pop()
                     continue
-                val = sol.model().eval(s, model_completion=True).as_string()
+                from vflib.py2smt import z3str
+                val_py = z3str(sol.model().eval(s, model_completion=True))
                 sol.pop()
-                sol.add(s != z3.StringVal(val))
-                try:
-                    val_py = val.encode().decode("unicode_escape") if "\\u" in val or "\\x" in val else val
-                except Exception:
-                    val_py = val
+                sol.add(s != z3.StringVal(val_py))
                 npts += 1
                 if str_accepts(T, val_py) != want:
                     bad += 1
@@ -221,7 +218,8 @@ def kernel_replaces(tier, seed, params):
         if r == "unsat":
             res["discharged"] += 1
         elif r == "sat":
-            val = sol.model().eval(s, model_completion=True).as_string()
+            from vflib.py2smt import z3str
+            val = z3str(sol.model().eval(s, model_completion=True))
             res["counterexamples"].append({"replay": "vflib.props.c09:replay_inclusion", "case": {"narrow": a, "wide": b, "string": val},
                                            "what": f"{val!r} in L({a}) but not in L({b})", "fingerprint": f"replace_edge_unsound:{a}->{b}"})
         else:
@@ -399,7 +397,7 @@ def scen_disabled(ch, params, out):
 def scen_bool_symbolic(ch, params, out):
     from json_to_models.dynamic_typing import BooleanString
     n = params.get("maxlen", 5)
-    s = ch.sym_str("s", n)
+    s = ch.sym_str("s", n, params.get("maxcp", 0x10FFFF))
     with ch.traced():
         try:
             v = BooleanString.to_internal_value(s)
@@ -420,7 +418,7 @@ def parts(tier):
         SMT("replaces", "vflib.props.c09:kernel_replaces", {"validation_per_class": 20 if q else 60}, timeout=400, mode="SMT-S"),
         CH("grammar", "vflib.props.c09:scen_grammar", {}, shards=7, timeout=170 if q else 900, path_timeout=30),
         CH("disabled", "vflib.props.c09:scen_disabled", {}, shards=16, timeout=170 if q else 600, path_timeout=30),
-        CH("bool_symbolic", "vflib.props.c09:scen_bool_symbolic", {"maxlen": 5 if q else 6}, shards=1, timeout=120 if q else 600, path_timeout=60, mode="CH-P"),
+        CH("bool_symbolic", "vflib.props.c09:scen_bool_symbolic", {"maxlen": 5, "maxcp": 127} if q else {"maxlen": 5}, shards=1, timeout=150 if q else 1200, path_timeout=60, mode="CH-P"),
     ]
 
 
@@ -432,7 +430,7 @@ META = {
     "functions_encoded": ["MetadataGenerator._detect_type (string branch)", "StringSerializableRegistry.add/remove/remove_by_name/resolve", "MetadataGenerator._optimize_union (pseudo-type clause)",
                           "IntString / FloatString / BooleanString parsers and renderers", "IsoDateString / IsoTimeString / IsoDatetimeString (through the grammar only)", "registry.replaces"],
     "symbolic_on_path": ["acceptance bit per stub type", "registration order / prefix", "replace relation bits", "argument subset", "string s (SMT and CrossHair string)", "grammar selectors", "disabled subset"],
-    "bounds": {"quick": "3 stub types (all orders and prefixes); 3 types x 6 relation bits x 7 subsets; ASCII strings of any length for the edges; grammar ~3.5k strings x datetime bit; 64 disabled subsets x 2 spellings x 3 frameworks; symbolic bool strings up to 5 chars",
+    "bounds": {"quick": "3 stub types (all orders and prefixes); 3 types x 6 relation bits x 7 subsets; ASCII strings of any length for the edges; grammar ~3.5k strings x datetime bit; 64 disabled subsets x 2 spellings x 3 frameworks; symbolic bool strings up to 5 ASCII chars (thorough: 5 arbitrary code points)",
                "thorough": "4 stub types; 4 types x 12 relation bits"},
     "outside_claim": ["classification of arbitrary strings by dateutil (only the grammar's strings)", "non-ASCII digits / whitespace in the inclusion proof", "int/float round trip beyond the grammar (delegated to CPython's int/str/float/repr)"],
     "assumptions": ["regex models of int()/float()/bool parsing (ASCII fragment) — validated each run against the real parsers on solver-generated strings",
